@@ -7,8 +7,15 @@ namespace Frappy.Comm
 def LastSend (log : Log) (i c conn n : Nat) : Prop :=
   (∃ d, evAt log i = some (.send c conn n d)) ∧ ∀ m, i < m → m < log.length → sendAt log m = none
 
-/-- no successful connect after position i -/
-def NoConnectAfter (log : Log) (i : Nat) : Prop := ∀ m, i < m → m < log.length → okConnectBy log m = none
+/-- the communicator drops its connection at this position -/
+def hcloseAt (log : Log) (m : Nat) : Bool :=
+  match evAt log m with
+  | some (.hclose _) => true
+  | _ => false
+
+/-- the connection is neither replaced (successful connect) nor dropped (closeConnection) after position i -/
+def NoConnectAfter (log : Log) (i : Nat) : Prop :=
+  ∀ m, i < m → m < log.length → okConnectBy log m = none ∧ hcloseAt log m = false
 
 /-- what the last event of a log contributes to `arrivedIn` -/
 def contrib (conn : Nat) (tag : Option Nat) (e : Ev) : Bytes :=
@@ -65,7 +72,7 @@ theorem lastSend_extend {log : Log} {e : TEv} {i c conn n : Nat} (h : LastSend l
 theorem noConnect_restrict {log : Log} {e : TEv} {i : Nat} (h : NoConnectAfter (log ++ [e]) i) : NoConnectAfter log i := by
   intro m h1 h2
   have := h m h1 (by simp; omega)
-  simpa [okConnectBy, evAt_append_lt log e m h2] using this
+  simpa [okConnectBy, hcloseAt, evAt_append_lt log e m h2] using this
 
 structure RInv (log : Log) (s : State) : Prop where
   r : ∀ c, (s.callers c).pc = .read → ∃ i conn n, LastSend log i c conn n ∧
@@ -95,7 +102,7 @@ theorem contrib_caller {e : Ev} {c0 : Nat} (hw : e.who = some c0) (conn : Nat) (
 
 theorem bufPc_held {k : Caller} (hk : heldOk k) (hb : bufPc k.pc = true) : 0 < k.held := by
   unfold heldOk at hk
-  cases hpc : k.pc <;> simp [bufPc, hpc] at hb <;> simp only [hpc] at hk <;> omega
+  cases hpc : k.pc <;> simp [bufPc, hpc] at hb <;> simp only [hpc] at hk <;> (try subst hb) <;> (try simp at hk) <;> omega
 
 theorem rinv_caller {log : Log} {s s' : State} (e : TEv) (c0 : Nat) (hw : e.ev.who = some c0) (hi : Inv log s)
     (hr : RInv log s) (h : stepCaller s e.t c0 e.ev = some s') : RInv (log ++ [e]) s' := by
@@ -152,9 +159,13 @@ theorem rinv_caller {log : Log} {s s' : State} (e : TEv) (c0 : Nat) (hw : e.ev.w
     refine ⟨i, conn, n, lastSend_extend hl hs, fun hno => ?_⟩
     by_cases hcn : ∃ x od, e.ev = .connect x true od
     · obtain ⟨x, od, hx⟩ := hcn
-      have := hno log.length (lastSend_lt hl) (by simp)
+      have := (hno log.length (lastSend_lt hl) (by simp)).1
       simp [okConnectBy, evAt_append_eq, hx] at this
-    · have hkeep := step_buf_keep s s' e.t c0 e.ev h hnb (fun x od hx => hcn ⟨x, od, hx⟩)
+    · by_cases hhc : ∃ x, e.ev = .hclose x
+      · obtain ⟨x, hx⟩ := hhc
+        have := (hno log.length (lastSend_lt hl) (by simp)).2
+        simp [hcloseAt, evAt_append_eq, hx] at this
+      have hkeep := step_buf_keep s s' e.t c0 e.ev h hnb (fun x od hx => hcn ⟨x, od, hx⟩) (fun x hx => hhc ⟨x, hx⟩)
       obtain ⟨h1, h2⟩ := himp (noConnect_restrict hno)
       refine ⟨by rw [hkeep.1]; exact h1, ?_⟩
       simp only [List.length_append, List.length_singleton]
@@ -232,6 +243,15 @@ theorem step_env_callers {s s' : State} {e : TEv} (hw : e.ev.who = none) (h : st
       · simp only [Option.some.injEq] at h; subst h; exact ⟨rfl, rfl⟩
     · split at h <;> (simp only [Option.some.injEq] at h; subst h; exact ⟨rfl, rfl⟩)
     · simp only [Option.some.injEq] at h; subst h; exact ⟨rfl, rfl⟩
+
+theorem step_keeps_cfg {s s' : State} {e : TEv} (h : step s e = some s') : s'.cfg = s.cfg := by
+  cases hwho : e.ev.who with
+  | none => exact (step_env_callers hwho h).2
+  | some c =>
+    rw [step_caller_form s e c hwho] at h
+    split at h
+    · simp at h
+    · exact step_cfg { s with clock := e.t } s' e.t c e.ev h
 
 /-- all bytes arriving on `conn` at positions in (i, e) answer send number `n` -/
 def OnlyAnswers (log : Log) (conn n i e : Nat) : Prop :=
